@@ -612,6 +612,7 @@ func (w *world) step(c caseIn, op opIn) obsStep {
 			lim = osmomath.OneInt()
 		}
 		o.Rop.K, o.Rop.Zfo, o.Rop.Amt, o.Rop.Lim = kind, op.Zfo, amt.String(), lim.String()
+		balOutBefore := w.h.App.BankKeeper.GetBalance(w.h.Ctx, sender, dout).Amount
 		if c.Est {
 			e := &estT{Amt: "0", BackAmt: "0", Back2Amt: "0", BackErr: -1, Back2Err: -1}
 			d1 := w.digest()
@@ -641,11 +642,8 @@ func (w *world) step(c caseIn, op opIn) obsStep {
 			})
 		}
 		if c.Est && o.Err == 0 {
-			// there and straight back: swap what was received (exact-in, other direction), on discarded contexts
-			recv := amt
-			if kind == "swap_in" {
-				recv = bi(o.Res[0])
-			}
+			// there and straight back: swap what was actually received (exact-in, other direction), on discarded contexts
+			recv := w.h.App.BankKeeper.GetBalance(w.h.Ctx, sender, dout).Amount.Sub(balOutBefore)
 			if recv.IsPositive() {
 				o.Est.BackErr, o.Est.BackAmt = w.estimate(true, !op.Zfo, recv)
 				o.Est.Back2Err, o.Est.Back2Amt = 1, "0"
